@@ -37,8 +37,8 @@ use crate::{
         WalReceiptCorrelationRecord, WalRecordKind, WalRecoveryError, WalRecoveryIndexError,
         WalRuntimeStateDeltaRecord, WalSegmentId, WalStoreError, WalStorePort, WalStoreSnapshot,
         WalSubmissionEnvelopeRecord, WalTickDecision, WalTransactionBuilder, WalTransactionCommit,
-        WalTransactionId, WalTransactionKind, WriterEpochId, WriterEpochRequest,
-        TRUSTED_RUNTIME_WAL_DOMAIN,
+        WalTransactionId, WalTransactionKind, WalValidationError, WriterEpochId,
+        WriterEpochRequest, TRUSTED_RUNTIME_WAL_DOMAIN,
     },
     contract_host::{decode_canonical_eint, encode_canonical_eint},
     echo_operation::{
@@ -3637,6 +3637,14 @@ impl TrustedRuntimeWalCursor {
         let causal_anchor_traversal = traverse_recovered_causal_anchors(report)?;
         let mut cursor = Self::genesis();
         for (index, transaction) in report.transactions.iter().enumerate() {
+            if transaction.commit.previous_committed_transaction_digest
+                != cursor.previous_committed_transaction_digest
+            {
+                return Err(WalRecoveryError::from(
+                    WalValidationError::PreviousCommittedTransactionDigestMismatch,
+                )
+                .into());
+            }
             cursor.has_committed_history = true;
             cursor.causal_history_frontier_digest =
                 causal_anchor_traversal.causal_history_frontiers[index + 1].frontier_digest;
